@@ -10,7 +10,6 @@ use crate::header::Header;
 use crate::ext::string_ext::StringExt;
 use crate::http::HTTP;
 use crate::symbol::SYMBOL;
-use url_build_parse::parse_url;
 use crate::url::URL;
 
 #[derive(PartialEq, Eq, Clone, Debug)]
@@ -125,11 +124,7 @@ impl Request {
     }
 
     pub fn get_uri_path(&self) -> Result<String, String> {
-        // scheme and host required for the parse_url function
-        let url_array = ["http://", "localhost", &self.request_uri];
-        let url = url_array.join(SYMBOL.empty_string);
-
-        let boxed_url_components = parse_url(&url);
+        let boxed_url_components = URL::parse_request_target(&self.request_uri);
         if boxed_url_components.is_err() {
             let message = boxed_url_components.err().unwrap().to_string();
             return Err(message)
